@@ -108,7 +108,7 @@ def run_driver(lines, timeout=600):
                        timeout=timeout)
     if p.returncode != 0:
         raise RuntimeError("driver failed: " + p.stderr.decode()[-2000:])
-    outs = [json.loads(l) for l in p.stdout.decode().splitlines() if l.strip()]
+    outs = [json.loads(l) for l in p.stdout.decode().split("\n") if l.strip()]
     if len(outs) != len(lines):
         raise RuntimeError(f"driver answered {len(outs)} lines for {len(lines)} cases")
     return outs
